@@ -57,6 +57,8 @@
   X(void, mzd_apply_p_right, (mzd_t *, mzp_t const *))                                      \
   X(void, mzd_apply_p_right_trans, (mzd_t *, mzp_t const *))                                \
   X(void, mzd_apply_p_right_trans_tri, (mzd_t *, mzp_t const *))                            \
+  X(void, mzd_apply_p_right_even_capped, (mzd_t *, mzp_t const *, rci_t, rci_t))            \
+  X(void, mzd_apply_p_right_trans_even_capped, (mzd_t *, mzp_t const *, rci_t, rci_t))      \
   X(mzp_t *, mzp_init, (rci_t))                                                             \
   X(void, mzp_free, (mzp_t *))                                                              \
   X(mzp_t *, mzp_copy, (mzp_t *, const mzp_t *))                                            \
@@ -64,6 +66,7 @@
   X(void, mzp_free_window, (mzp_t *))                                                       \
   X(djb_t *, djb_compile, (mzd_t *))                                                        \
   X(void, djb_apply_mzd, (djb_t *, mzd_t *, const mzd_t *))                                 \
+  X(void, djb_print, (djb_t *))                                                             \
   X(void, m4shim_djb_free, (djb_t *))                                                       \
   X(void, m4shim_col_swap, (mzd_t *, rci_t, rci_t))                                         \
   X(void, m4shim_row_swap, (mzd_t *, rci_t, rci_t))                                         \
